@@ -3,6 +3,7 @@ package mon
 import (
 	"bytes"
 	"encoding/json"
+	"errors"
 	"fmt"
 	"math/big"
 	"math/rand"
@@ -22,11 +23,19 @@ type SeqCase struct {
 	Calls  []int `json:"calls"`
 }
 
-var seqConfigNames = []string{"text", "pretty", "binary", "binary-fixed-lst", "text-quiet-finish", "pretty-quiet-finish"}
+var seqConfigNames = []string{"text", "pretty", "binary", "binary-fixed-lst", "text-quiet-finish", "pretty-quiet-finish", "text-shared-import", "binary-shared-import"}
 
-const nSeqConfigs = 6
+const nSeqConfigs = 8
 
-func cfgBinary(cfg int) bool { return cfg == 2 || cfg == 3 }
+func cfgBinary(cfg int) bool { return cfg == 2 || cfg == 3 || cfg == 7 }
+
+// seqShared: configurations 6 and 7 construct the writer with this shared table (it holds some of the
+// texts the calls use, so ids come from the import as well as from the local table).
+var seqShared = []SymImport{{Name: "seq_shared", Version: 1, Symbols: []string{"a", "f", "unused"}}}
+
+func seqSharedTable() ion.SharedSymbolTable {
+	return ion.NewSharedSymbolTable(seqShared[0].Name, seqShared[0].Version, seqShared[0].Symbols)
+}
 
 type wcall struct {
 	name string
@@ -111,6 +120,25 @@ var writerCalls = []wcall{
 	{"WriteBlob(buf[0:100])", nil, ckValue, model.BlobV(seqLobPattern()[0:100])},
 	{"WriteBlob(buf[100:200])", nil, ckValue, model.BlobV(seqLobPattern()[100:200])},
 	{"WriteClob(buf[200:300])", nil, ckValue, model.ClobV(seqLobPattern()[200:300])},
+	// the slice given to Annotations stays the caller's: it is recycled as soon as the call returned ...
+	{"Annotations(own[0:2]), slice recycled by the caller", func(w ion.Writer) error {
+		own := []ion.SymbolToken{tokT("a"), tokT("b"), tokT("s")}
+		err := w.Annotations(own[:2]...)
+		own[0], own[1], own[2] = tokT("t"), tokT("t"), tokT("t")
+		return err
+	}, ckAnnot, []string{"a", "b"}},
+	// ... and its spare capacity holds tokens of the caller that a following Annotation must not overwrite
+	{"Annotations(own[0:1]) + Annotation(b), spare capacity is the caller's", func(w ion.Writer) error {
+		own := []ion.SymbolToken{tokT("a"), tokT("g"), tokT("g")}
+		if err := w.Annotations(own[:1]...); err != nil {
+			return err
+		}
+		err := w.Annotation(tokT("b"))
+		if own[1].Text == nil || *own[1].Text != "g" {
+			return errors.New("harness: the Writer wrote into the caller's slice behind the token it was given")
+		}
+		return err
+	}, ckAnnot, []string{"a", "b"}},
 }
 
 const reducedAlphabet = 12
@@ -127,6 +155,12 @@ func newSeqWriter(config int, out *bytes.Buffer) ion.Writer {
 		return ion.NewTextWriterOpts(out, ion.TextWriterQuietFinish)
 	case 5:
 		return ion.NewTextWriterOpts(out, ion.TextWriterPretty|ion.TextWriterQuietFinish)
+	case 6:
+		return ion.NewTextWriter(out, seqSharedTable())
+	case 7:
+		return ion.NewBinaryWriter(out, seqSharedTable())
+	case 3:
+		return ion.NewBinaryWriterLST(out, ion.NewLocalSymbolTable(nil, fixedTexts))
 	default:
 		return ion.NewBinaryWriterLST(out, ion.NewLocalSymbolTable(nil, fixedTexts))
 	}
@@ -311,9 +345,19 @@ func runSeq(k SeqCase) (o seqOutcome) {
 		if len(o.out) == 0 && len(sh.all) == 0 {
 			return
 		}
-		got, err = refbin.Decode(o.out, nil)
+		var dopts *refbin.DecodeOpts
+		if k.Config == 7 {
+			rc, _ := catalogOf(seqShared)
+			dopts = &refbin.DecodeOpts{Catalog: rc}
+		}
+		got, err = refbin.Decode(o.out, dopts)
 	} else {
-		got, err = reftext.Parse(string(o.out), nil)
+		var popts *reftext.ParseOpts
+		if k.Config == 6 {
+			rc, _ := catalogOf(seqShared)
+			popts = &reftext.ParseOpts{Catalog: rc}
+		}
+		got, err = reftext.Parse(string(o.out), popts)
 	}
 	if err != nil {
 		o.verdict = "final Finish returned nil but the output is not valid Ion: " + err.Error()
@@ -412,7 +456,7 @@ func runC12(c *Ctx) {
 		}
 	})
 	c.Obs("exhaustive_sequences", int64(total))
-	c.Exhaustive(fmt.Sprintf("every call sequence of length <= %d over the reduced 12-call alphabet {BeginList, EndList, BeginStruct, EndStruct, FieldName, Annotation, WriteInt, WriteNull, WriteSymbol, WriteString, Finish, WriteSymbol(invalid token)} x 4 writer configurations (%d sequences), each followed by a final Finish and run twice", maxLen, total))
+	c.Exhaustive(fmt.Sprintf("every call sequence of length <= %d over the reduced 12-call alphabet {BeginList, EndList, BeginStruct, EndStruct, FieldName, Annotation, WriteInt, WriteNull, WriteSymbol, WriteString, Finish, WriteSymbol(invalid token)} x 8 writer configurations (%d sequences), each followed by a final Finish and run twice", maxLen, total))
 	// random sequences over the full interface, biased towards legal continuations
 	nr := c.N(20000, 300000)
 	c.Parallel(nr, func(w, i int) {
@@ -497,7 +541,7 @@ func runC12(c *Ctx) {
 
 func init() {
 	Register(&Monitor{ID: "C12", Run: func(c *Ctx) {
-		c.Rule = "Writer call sequences (exhaustive up to a bounded length over a reduced alphabet, random to length 60 over the full interface, biased towards legal continuations; nesting 1..40, 63..65, 100, 127..129, 300 (thorough: 1000, 5000) containers deep in 6 shapes) x {text, pretty, binary with growing table, binary with fixed table}; a shadow protocol automaton driven by the actual return values decides which calls can be part of a valid stream; oracles: no panic, after the first error of a non-Finish call every later call errs, a nil final Finish implies output that the independent decoder accepts and whose values equal the successful calls batch by batch, two runs give identical bytes and results. Non-trivial: >= 3 calls with a misuse, an intermediate Finish or a nested container; distinct by (configuration, sequence)."
+		c.Rule = "Writer call sequences (exhaustive up to a bounded length over a reduced alphabet, random to length 60 over the full interface, biased towards legal continuations; nesting 1..40, 63..65, 100, 127..129, 300 (thorough: 1000, 5000) containers deep in 6 shapes) x {text, pretty, binary with growing table, binary with fixed table, text and pretty with quiet Finish, text and binary constructed with a shared table}; arguments that stay the caller's (lob sub-slices of one buffer, an annotation slice recycled or with spare capacity holding other tokens); a shadow protocol automaton driven by the actual return values decides which calls can be part of a valid stream; oracles: no panic, after the first error of a non-Finish call every later call errs, a nil final Finish implies output that the independent decoder accepts and whose values equal the successful calls batch by batch, two runs give identical bytes and results. Non-trivial: >= 3 calls with a misuse, an intermediate Finish or a nested container; distinct by (configuration, sequence)."
 		c.Assume("pending annotations / field name at a successful End*/Finish may be dropped or kept (such sequences are checked for validity and stickiness only)")
 		runC12(c)
 	}, Replay: func(c *Ctx, v *Violation) string {
